@@ -272,8 +272,13 @@ def metamorphic(ctx, count):
             combos.append(("fresh", "hidden"))
         subs = [Subject(ctx, content=content, layout=l, style=st, labels=labels) for l, st in combos]
         ref_results = None
-        for s in subs:
+        for si, s in enumerate(subs):
             ser = s.series()
+            index_repr = "as_built"
+            if si > 0 and isinstance(ser.index, pd.RangeIndex) and (ci + si) % 2 == 0:
+                # the same labels held as a plain Index instead of the RangeIndex a slice of a default index leaves
+                ser.index = pd.Index(list(ser.index), dtype="int64")
+                index_repr = "plain_int64"
             results = {}
             for name, fn in battery:
                 r = call_real(lambda: fn(ser))
@@ -292,6 +297,24 @@ def metamorphic(ctx, count):
                 rf = ref_results[name] if "ok" in ref_results[name] else {"err": True}
                 ctx.case(f"metamorphic.{base}", {"content": content, "labels": labels, "battery_seed": seed,
                                                  "layout": s.layout, "style": s.style, "phys": s.phys,
-                                                 "reference_layout": [ref.layout, ref.style], "op": name},
-                         r, None, ref_results[name], hyp=s.hyp, features=(f"layout={s.layout}", f"style={s.style}", base),
+                                                 "index_repr": index_repr, "reference_layout": [ref.layout, ref.style], "op": name},
+                         r, None, ref_results[name], hyp=s.hyp, features=(f"layout={s.layout}", f"style={s.style}", base, f"index={index_repr}"),
                          spec_ok=(rr == rf), mode=mode, nontrivial=s.nontrivial())
+        # comparisons between two non-reference layouts (e.g. the same number of chunks cut at different rows): as equal
+        # as the reference is to a second copy of itself
+        def eqs(a, b):
+            sa, sb = a.series(), b.series()
+            return {"array": bool(sa.array.equals(sb.array)), "series": bool(sa.equals(sb)),
+                    "frame": bool(NestedFrame({"nest": sa}).equals(NestedFrame({"nest": sb})))}
+        want = call_real(lambda: eqs(subs[0], Subject(ctx, content=content, layout="fresh", style="null", labels=labels)))
+        pairs = [(i, j) for i in range(1, len(subs)) for j in range(1, len(subs)) if i != j]
+        rng.shuffle(pairs)
+        for i, j in pairs[:ctx.budget(4, 10)]:
+            a, b = subs[i], subs[j]
+            got = call_real(lambda: eqs(a, b))
+            hyp = dict(a.hyp)
+            hyp.update({k: True for k, v in b.hyp.items() if v})
+            ctx.case("metamorphic.equals_pairwise", {"content": content, "labels": labels,
+                                                     "left": [a.layout, a.style, a.phys], "right": [b.layout, b.style, b.phys]},
+                     got, None, want, hyp=hyp, features=(f"layout={a.layout}", f"layout={b.layout}", "equals_pairwise"),
+                     spec_ok=(got == want), mode="spec", nontrivial=a.nontrivial())
